@@ -331,22 +331,26 @@ def angle_rtol(x, ulps=64):
     return tol / max(1.0, abs(x))
 
 
-def angle_call(dg, c):
+def angle_call(dg, c, style="positional"):
     f64 = lambda x: np.ascontiguousarray(x, dtype=np.float64)   # noqa: E731
     try:
-        x = dg.smallest_angle(f64(c["v"]), f64(c["a"])) if c["p"] is None else dg.smallest_angle(f64(c["v"]), f64(c["a"]), f64(c["p"]))
+        if style == "keyword":
+            x = (dg.smallest_angle(vector=f64(c["v"]), axis=f64(c["a"])) if c["p"] is None
+                 else dg.smallest_angle(f64(c["v"]), f64(c["a"]), plane=f64(c["p"])))
+        else:
+            x = dg.smallest_angle(f64(c["v"]), f64(c["a"])) if c["p"] is None else dg.smallest_angle(f64(c["v"]), f64(c["a"]), f64(c["p"]))
         return ("OK", float(x))
     except Exception as e:  # noqa: BLE001
         return ("ERR", common.exc_code(e))
 
 
-def oracle_angle(dg, c):
+def oracle_angle(dg, c, style="positional"):
     """smallest_angle read directly: in [0, 90]; the angle whose cosine is |w.a| / (|w||a|), w = the (projected) vector;
     ZeroDivisionError exactly when w or the axis is the zero vector; unchanged when the axis or the vector is reversed"""
     fails = []
     v, a, p = c["v"], c["a"], c["p"]
     w = v if p is None else v - p * np.dot(v, p)
-    r = angle_call(dg, c)
+    r = angle_call(dg, c, style)
     d = np.linalg.norm(w) * np.linalg.norm(a)
     if d == 0:
         return [] if r == ("ERR", "DivZero") else [f"zero (projected) vector or axis: expected ZeroDivisionError, got {r}"]
@@ -359,7 +363,7 @@ def oracle_angle(dg, c):
     if abs(x - ref) > 1e-5:
         fails.append(f"angle {x!r} but arccos(|w.a| / (|w||a|)) = {ref!r} degrees")
     for what, c2 in (("axis", dict(c, a=-a)), ("vector", dict(c, v=-v))):
-        r2 = angle_call(dg, c2)
+        r2 = angle_call(dg, c2, style)
         if r2[0] != "OK" or abs(r2[1] - x) > 1e-6:
             fails.append(f"angle changes when the {what} is reversed: {x!r} -> {r2[1]!r}")
     return fails
@@ -1371,6 +1375,11 @@ def correspondence(chk, tier):
             bump("angle_kind", c["kind"].split(":")[0]); bump("function", "smallest_angle")
             run.add("smallest_angle", [], fl, ("OK", [r[1]]) if r[0] == "OK" else ("ERR", r[1]),
                     dict(function="smallest_angle", kind=c["kind"], angle_case=c), rtol=angle_rtol(r[1]) if r[0] == "OK" else RTOL)
+            rk = angle_call(dg, c, "keyword")
+            bump("argument_convention", "smallest_angle keyword arguments")
+            if rk != r and not (r[0] == "OK" and rk[0] == "OK" and (rk[1] == r[1] or (math.isnan(rk[1]) and math.isnan(r[1])))):
+                bad.append((dict(function="smallest_angle", kind=c["kind"], angle_case=c, op="keyword vs positional arguments"),
+                            f"smallest_angle(v, a[, p]) = {r} but with keyword arguments {rk}"))
             chk.note_case(("smallest_angle", c["kind"], tuple(fl)), nontrivial=r[0] == "OK" and 0 < r[1] < 90)
     cmp_bad = run.compare()
     for m, d in cmp_bad:
@@ -1402,18 +1411,48 @@ def ref_scatter(os, row):
     return a.T @ a
 
 
+# ---- call STYLES: every optional argument of the public diagnostics passed by keyword and positionally.  The property does not
+# depend on how an argument is spelled; a signature change that re-binds a positional argument (seeded C13e) shows up only here.
+FSE_STYLES = ["default"] + [f"{how}:{d}" for d in ("ev", "evd", "evr", "evx") for how in ("keyword", "positional")]
+TEX_STYLES = ["keyword", "positional"]
+ANGLE_STYLES = ["positional", "keyword"]
+
+
+def fse_call(dg, F, style="default"):
+    if style == "default":
+        return dg.finite_strain(F)
+    how, d = style.split(":")
+    return dg.finite_strain(F, driver=d) if how == "keyword" else dg.finite_strain(F, d)
+
+
+def describe_fse_style(style):
+    if style == "default":
+        return "finite_strain(F)"
+    how, d = style.split(":")
+    return f"finite_strain(F, driver={d!r})" if how == "keyword" else f"finite_strain(F, {d!r})"
+
+
+def tex_calls(dg, style):
+    """(symmetry_pgr, bingham_average, coaxial_index) as functions of (os, axis[, axis2]) in the given call style"""
+    if style == "positional":
+        return (lambda o, a: dg.symmetry_pgr(o, a), lambda o, a: dg.bingham_average(o, a), lambda o, a, b: dg.coaxial_index(o, a, b))
+    return (lambda o, a: dg.symmetry_pgr(o, axis=a), lambda o, a: dg.bingham_average(o, axis=a),
+            lambda o, a, b: dg.coaxial_index(o, axis1=a, axis2=b))
+
+
 def same_axis(u, v, tol):
     return min(np.abs(u - v).max(), np.abs(u + v).max()) <= tol
 
 
-def oracle_texture(dg, os, ax, ax2, rng):
+def oracle_texture(dg, os, ax, ax2, rng, style="keyword"):
     fails = []
     row, row2 = AXCODE[ax], AXCODE[ax2]
     n = len(os)
     tol = 1e-9
+    f_pgr, f_bingham, f_coaxial = tex_calls(dg, style)
     try:
-        pgr = np.array(dg.symmetry_pgr(os, axis=ax), dtype=float)
-        b = np.asarray(dg.bingham_average(os, axis=ax), dtype=float)
+        pgr = np.array(f_pgr(os, ax), dtype=float)
+        b = np.asarray(f_bingham(os, ax), dtype=float)
     except Exception as e:  # noqa: BLE001
         return [f"raised {type(e).__name__}: {e}"]
     if np.any(pgr < -tol) or np.any(pgr > 1 + tol):
@@ -1434,21 +1473,21 @@ def oracle_texture(dg, os, ax, ax2, rng):
     aniso = (w[2] - w[0]) > 1e-9 * n and (w2[2] - w2[0]) > 1e-9 * n
     ba = None
     if aniso:
-        ba = float(dg.coaxial_index(os, axis1=ax, axis2=ax2))
+        ba = float(f_coaxial(os, ax, ax2))
         if not (-tol <= ba <= 1 + tol):
             fails.append(f"coaxial index {ba!r} outside [0, 1]")
     for op, os2, Q in variants(rng, os):
         if op == "base":
             continue
-        pgr2 = np.array(dg.symmetry_pgr(os2, axis=ax), dtype=float)
+        pgr2 = np.array(f_pgr(os2, ax), dtype=float)
         if np.abs(pgr2 - pgr).max() > 1e-8:
             fails.append(f"P, G, R change under {op}: {pgr.tolist()} -> {pgr2.tolist()}")
         if aniso:
-            ba2 = float(dg.coaxial_index(os2, axis1=ax, axis2=ax2))
+            ba2 = float(f_coaxial(os2, ax, ax2))
             if abs(ba2 - ba) > 1e-7:
                 fails.append(f"coaxial index changes under {op}: {ba!r} -> {ba2!r}")
         if gap > 1e-6:
-            b2 = np.asarray(dg.bingham_average(os2, axis=ax), dtype=float)
+            b2 = np.asarray(f_bingham(os2, ax), dtype=float)
             tgt = Q @ b if Q is not None else b
             if not same_axis(b2, tgt, 1e-7 / gap):
                 fails.append(f"Bingham mean does not {'co-rotate' if Q is not None else 'stay fixed'} under {op}")
@@ -1571,10 +1610,10 @@ def minimise_session(dg, sess, first):
 
 
 
-def oracle_F(dg, ut, F, Q):
+def oracle_F(dg, ut, F, Q, style="default"):
     fails = []
     try:
-        val, axv = dg.finite_strain(F)
+        val, axv = fse_call(dg, F, style)
     except Exception as e:  # noqa: BLE001
         return [f"raised {type(e).__name__}: {e}"]
     U, s, _ = np.linalg.svd(F)
@@ -1584,19 +1623,19 @@ def oracle_F(dg, ut, F, Q):
     gap = (s[0] ** 2 - s[1] ** 2) / max(s[0] ** 2, 1e-300)
     if gap > 1e-6 and not same_axis(np.asarray(axv), U[:, 0], 1e-7 / gap):
         fails.append("axis is not the long axis of the strain ellipsoid (first left singular vector of F)")
-    v2, a2 = dg.finite_strain(F @ Q)
+    v2, a2 = fse_call(dg, F @ Q, style)
     if abs(v2 - val) > tol or (gap > 1e-6 and not same_axis(np.asarray(a2), np.asarray(axv), 1e-7 / gap)):
         fails.append("result changes under a prior rigid rotation F -> F.Q")
-    v3, a3 = dg.finite_strain(Q @ F)
+    v3, a3 = fse_call(dg, Q @ F, style)
     if abs(v3 - val) > tol or (gap > 1e-6 and not same_axis(np.asarray(a3), Q @ np.asarray(axv), 1e-7 / gap)):
         fails.append("result does not co-rotate under a subsequent rotation F -> Q.F")
     return fails
 
 
-def oracle_shear(dg, ut, g):
+def oracle_shear(dg, ut, g, style="default"):
     F = np.eye(3)
     F[1, 0] = g
-    _, axv = dg.finite_strain(F)
+    _, axv = fse_call(dg, F, style)
     th = np.deg2rad(ut.angle_fse_simpleshear(g / 2))
     tgt = np.array([np.cos(th), np.sin(th), 0.0])
     if g > 1e-3 and not same_axis(np.asarray(axv), tgt, 1e-7 / min(1.0, g)):
@@ -1635,9 +1674,12 @@ def search(chk, extra=()):
             pool.append((np.repeat(base[None], 3, axis=0), ax, AXES[(AXCODE[ax] + 1) % 3]))
             pool.append((np.stack([base, base, other]), ax, AXES[(AXCODE[ax] + 2) % 3]))
     for os, ax, ax2 in pool:
-        fails = oracle_texture(dg, os, ax, ax2, np.random.default_rng(chk.seed + 2))
-        if fails:
-            add(dict(call="texture", orientations=[hx(x) for x in os.reshape(-1)], n_grains=len(os), axis=ax, axis2=ax2), fails)
+        for style in TEX_STYLES:
+            fails = oracle_texture(dg, os, ax, ax2, np.random.default_rng(chk.seed + 2), style)
+            if fails:
+                add(dict(call="texture", orientations=[hx(x) for x in os.reshape(-1)], n_grains=len(os), axis=ax, axis2=ax2, style=style,
+                         call_style=f"axis arguments passed {'positionally' if style == 'positional' else 'by keyword'}"), fails)
+                break
     # call sequences: the histories that disagreed, then small histories of every family
     spool, ids = [], set()
     for m in extra:
@@ -1659,9 +1701,12 @@ def search(chk, extra=()):
     fpool = [(m["F"], haar(rng)) for m in extra if "F" in m]
     fpool += [(c["F"], c["Q"]) for c in gen_F(chk, "quick")]
     for F, Q in fpool:
-        fails = oracle_F(dg, ut, F, Q)
-        if fails:
-            add(dict(call="finite_strain", F=[hx(x) for x in F.reshape(-1)], Q=[hx(x) for x in Q.reshape(-1)]), fails)
+        for style in FSE_STYLES:
+            fails = oracle_F(dg, ut, F, Q, style)
+            if fails:
+                add(dict(call="finite_strain", F=[hx(x) for x in F.reshape(-1)], Q=[hx(x) for x in Q.reshape(-1)], style=style,
+                         call_style=describe_fse_style(style)), [f"[{describe_fse_style(style)}] " + f for f in fails])
+                break
     fspool, fids = [], set()
     for m in extra:
         if "fsession" in m and id(m["fsession"]) not in fids:
@@ -1680,14 +1725,19 @@ def search(chk, extra=()):
             add(fsess_to_json(small), oracle_fse_session(dg, small)[0] or fails)
     apool = [m["angle_case"] for m in extra if "angle_case" in m] + gen_angles(chk, "quick")
     for c in apool:
-        fails = oracle_angle(dg, c)
-        if fails:
-            add(dict(call="smallest_angle", vector=[hx(x) for x in c["v"]], axis=[hx(x) for x in c["a"]],
-                     plane=None if c["p"] is None else [hx(x) for x in c["p"]]), fails)
+        for style in ANGLE_STYLES:
+            fails = oracle_angle(dg, c, style)
+            if fails:
+                add(dict(call="smallest_angle", vector=[hx(x) for x in c["v"]], axis=[hx(x) for x in c["a"]],
+                         plane=None if c["p"] is None else [hx(x) for x in c["p"]], style=style), fails)
+                break
     for g in (0.5, 1.0, 2.0, 5.0):
-        fails = oracle_shear(dg, ut, g)
-        if fails:
-            add(dict(call="simple_shear", gamma=hx(g)), fails)
+        for style in FSE_STYLES:
+            fails = oracle_shear(dg, ut, g, style)
+            if fails:
+                add(dict(call="simple_shear", gamma=hx(g), style=style, call_style=describe_fse_style(style)),
+                    [f"[{describe_fse_style(style)}] " + f for f in fails])
+                break
     return found
 
 
@@ -1759,18 +1809,19 @@ def replay(d):
     u = common.unhx
     if i["call"] == "texture":
         os = np.array([u(x) for x in i["orientations"]]).reshape(i["n_grains"], 3, 3)
-        fails = oracle_texture(dg, os, i["axis"], i["axis2"], np.random.default_rng(d.get("seed", 0) + 2))
+        fails = oracle_texture(dg, os, i["axis"], i["axis2"], np.random.default_rng(d.get("seed", 0) + 2), i.get("style", "keyword"))
     elif i["call"] == "session":
         fails = oracle_session(dg, sess_from_json(i))[0]
     elif i["call"] == "fse_session":
         fails = oracle_fse_session(dg, fsess_from_json(i))[0]
     elif i["call"] == "smallest_angle":
         fails = oracle_angle(dg, dict(v=np.array([u(x) for x in i["vector"]]), a=np.array([u(x) for x in i["axis"]]),
-                                      p=None if i["plane"] is None else np.array([u(x) for x in i["plane"]])))
+                                      p=None if i["plane"] is None else np.array([u(x) for x in i["plane"]])), i.get("style", "positional"))
     elif i["call"] == "finite_strain":
-        fails = oracle_F(dg, ut, np.array([u(x) for x in i["F"]]).reshape(3, 3), np.array([u(x) for x in i["Q"]]).reshape(3, 3))
+        fails = oracle_F(dg, ut, np.array([u(x) for x in i["F"]]).reshape(3, 3), np.array([u(x) for x in i["Q"]]).reshape(3, 3),
+                         i.get("style", "default"))
     else:
-        fails = oracle_shear(dg, ut, u(i["gamma"]))
+        fails = oracle_shear(dg, ut, u(i["gamma"]), i.get("style", "default"))
     for f in fails:
         print("still fails:", f)
     return 1 if fails else 0
